@@ -33,6 +33,19 @@ func Arithm(cfg *Config, expr syntax.ArithmExpr) (int, error) {
 			}
 			str = val
 		}
+		if isArithmExprText(str) {
+			// Like Bash, a value which is itself an expression gets evaluated.
+			if cfg.arithmDepth >= maxNameRefDepth {
+				return 0, fmt.Errorf("expression recursion level exceeded")
+			}
+			sub, err := syntax.NewParser().Arithmetic(strings.NewReader(str))
+			if err == nil && sub != nil {
+				cfg.arithmDepth++
+				n, err := Arithm(cfg, sub)
+				cfg.arithmDepth--
+				return n, err
+			}
+		}
 		// default to 0
 		return int(atoi(str)), nil
 	case *syntax.ParenArithm:
@@ -121,6 +134,24 @@ func Arithm(cfg *Config, expr syntax.ArithmExpr) (int, error) {
 	default:
 		panic(fmt.Sprintf("unexpected arithm expr: %T", expr))
 	}
+}
+
+// isArithmExprText reports whether a variable's value needs to be parsed as
+// an arithmetic expression, rather than being a plain number or name.
+func isArithmExprText(s string) bool {
+	s = strings.TrimSpace(s)
+	s = strings.TrimLeft(s, "+-")
+	if s == "" {
+		return false
+	}
+	for _, r := range s {
+		switch {
+		case r >= '0' && r <= '9', r >= 'a' && r <= 'z', r >= 'A' && r <= 'Z', r == '_', r == '@', r == '#':
+		default:
+			return true
+		}
+	}
+	return false
 }
 
 func oneIf(b bool) int {
